@@ -1,10 +1,11 @@
 package astisub
 
 import (
-	"errors"
 	"encoding/xml"
+	"errors"
 	"fmt"
 	"io"
+	"math"
 	"regexp"
 	"sort"
 	"strconv"
@@ -299,7 +300,7 @@ func (d *TTMLInDuration) UnmarshalText(i []byte) (err error) {
 			}
 
 			// Update duration
-			d.d = time.Duration(value * float64(timebase.Nanoseconds()))
+			d.d = time.Duration(math.Round(value * float64(timebase.Nanoseconds())))
 		}
 		return
 	}
